@@ -27,15 +27,18 @@ THEOREMS = [
     'C06Regex.assign_regex', 'C06Regex.continuation_regex', 'C06Regex.return_regex', 'C06Regex.kwExprColon_regex', 'C06Regex.if_regex',
     'C06Regex.elif_regex', 'C06Regex.while_regex', 'C06Regex.for_regex',
     'C06Regex.name_tail', 'C06Regex.paren_rx', 'C06Regex.jump_regex', 'C06Regex.delim_prefix', 'C06Regex.system_tail', 'C06Regex.quote_loop',
+    'C06Regex.quoteEnd_decomp', 'C06Regex.quoteEnd_sound', 'C06Regex.sub1_esc', 'C06Regex.quoted_tail', 'C06Regex.include_regex',
+    'C06Regex.args_loop', 'C06Regex.K5_eval', 'C06Regex.K4_eval', 'C06Regex.ws_K4',
     'C06Regex.shape_is_cascade_partial', 'C06Regex.shape_is_cascade_partial2', 'C06Regex.shape_is_cascade_partial3',
+    'C06Regex.shape_is_cascade_partial4',
 ]
-LEAN_TARGETS = ['BareProofs.C06RegexPins', 'BareProofs.C06Regex', 'BareProofs.C06Regex2', 'BareProofs.C06Regex3']
+LEAN_TARGETS = ['BareProofs.C06RegexPins', 'BareProofs.C06Regex', 'BareProofs.C06Regex2', 'BareProofs.C06Regex3', 'BareProofs.C06Regex4']
 EXTRA_TARGETS = ['drv_c06x']
 GEN = ['Regex']
 
 # scanners whose "scanner = regex" theorem is proved for all lines without '\n' (the others are only correspondence-checked by rx-scan)
 PROVED = {'endfunction', 'endif', 'endwhile', 'endfor', 'break', 'continue', 'comment', 'continuation', 'label', 'else', 'assign', 'if', 'elif',
-          'while', 'return', 'for', 'jump'}
+          'while', 'return', 'for', 'jump', 'include'}
 
 SCANNERS = ['assign', 'function', 'endfunction', 'if', 'elif', 'else', 'endif', 'while', 'endwhile', 'for', 'endfor', 'break', 'continue', 'label',
             'jump', 'return', 'include', 'comment', 'continuation', 'shape']
@@ -241,7 +244,7 @@ def _streams(ctx, drv):
                                  'without \\n; non-trivial = the pattern matches')
     st_s = ctx.stream('rx-scan', 'the hand-written scanners of Scan / Text, as Scan.shape uses them (indentation stripped, offsets re-based), vs the reading '
                                  'of the REAL re match per pattern - the correspondence check for the patterns without a proved regex theorem (function, '
-                                 'include, the cascade); run for the proved ones too; non-trivial = the pattern matches')
+                                 'the cascade); run for the proved ones too; non-trivial = the pattern matches')
     C10 = None
     try:
         from props import C10 as _C10       # impl_shape: which pattern parse_script matched first (regex proxies)
